@@ -47,6 +47,7 @@ EXPECTED_MISSES = {
 
 # (id, property, expected rule prefix, edits)
 FIRE: List[Tuple[str, str, str, List[Tuple[str, str, str]]]] = [
+    ("sanitize-name-keyword-test-lowercased", "C19", "I1", [("src/betterproto/casing.py", "    if keyword.iskeyword(value):\n", "    if keyword.iskeyword(value.lower()):\n")]),
     ("reduce-shortcut-for-falsy", "C07", "V11", [(I, "        return (self.__class__.FromString, (bytes(self),))\n", "        if not self and not self._unknown_fields:\n            return (self.__class__, ())\n        return (self.__class__.FromString, (bytes(self),))\n")]),
     ("reduce-shortcut-for-falsy/C14", "C14", "V11", [(I, "        return (self.__class__.FromString, (bytes(self),))\n", "        if not self and not self._unknown_fields:\n            return (self.__class__, ())\n        return (self.__class__.FromString, (bytes(self),))\n")]),
     ("stub-timeout-folded-into-deadline", "C11", "G11", [(CL, "        self.deadline = deadline\n", "        self.deadline = deadline if timeout is None else Deadline.from_timeout(timeout)\n")]),
@@ -175,6 +176,9 @@ CODEC = ["C01", "C02", "C06", "C08", "C09", "C10", "C16", "C17", "C20"]
 
 # (id, properties that must stay at exit 0, edits)  -- behaviour-preserving refactors
 SILENT: List[Tuple[str, List[str], List[Any]]] = [
+    ("sanitize-name-kwlist-membership", ["C19", "C03"], [("src/betterproto/casing.py", "    if keyword.iskeyword(value):\n        return f\"{value}_\"\n    if not value.isidentifier():\n        return f\"_{value}\"\n    return value\n", "    if not value.isidentifier():\n        return \"_\" + value\n    return value + \"_\" if value in keyword.kwlist else value\n")]),
+    ("load-frame-bound-in-own-local", ["C10", "C08", "C17", "C01"], [(I, "        if size == SIZE_DELIMITED:\n            size, _ = load_varint(stream)\n", "        expected = size\n        if size == SIZE_DELIMITED:\n            expected, _ = load_varint(stream)\n"), (I, "        while size is None or read < size:", "        while expected is None or read < expected:"), (I, "            if size is not None and read > size:\n                raise ValueError(\n                    f\"Expected message of size {size}, can only read \"", "            if expected is not None and read > expected:\n                raise ValueError(\n                    f\"Expected message of size {expected}, can only read \""), (I, "        if size is not None and read < size:\n            raise ValueError(\n                f\"Expected message of size {size}, but was only able to \"", "        if expected is not None and read < expected:\n            raise ValueError(\n                f\"Expected message of size {expected}, but was only able to \"")]),
+    ("from-timedelta-abs-of-delta-both-negated", ["C15", "C01", "C02"], [(I, "        total_us = delta // _1_microsecond\n        seconds, us = divmod(abs(total_us), 10**6)\n        if total_us < 0:\n            seconds, us = -seconds, -us\n", "        seconds, us = divmod(abs(delta) // _1_microsecond, 10**6)\n        if delta.days < 0:\n            # a negative timedelta is normalised to days < 0, seconds/us >= 0\n            seconds, us = -seconds, -us\n")]),
     ("reduce-through-serialize-to-string", ["C07", "C14"], [(I, "        return (self.__class__.FromString, (bytes(self),))\n", "        cls = self.__class__\n        return (cls.FromString, (self.SerializeToString(),))\n")]),
     ("stub-metadata-copied", ["C11"], [(CL, "        self.metadata = metadata\n", "        self.metadata = metadata if metadata is None else dict(metadata)\n")]),
     ("timestamp-json-integer-groups", ["C15", "C05", "C04"], [(I, "        if (nanos % 1e9) == 0:\n            # If there are 0 fractional digits, the fractional\n            # point '.' should be omitted when serializing.\n            return f\"{result}Z\"\n        if (nanos % 1e6) == 0:\n            # Serialize 3 fractional digits.\n            return f\"{result}.{int(nanos // 1e6):03d}Z\"\n        if (nanos % 1e3) == 0:\n            # Serialize 6 fractional digits.\n            return f\"{result}.{int(nanos // 1e3):06d}Z\"\n        # Serialize 9 fractional digits.\n        return f\"{result}.{nanos:09d}\"\n", "        micros = int(nanos // 1e3)\n        if not micros:\n            return f\"{result}Z\"\n        millis, rest = divmod(micros, 1000)\n        if not rest:\n            return f\"{result}.{millis:03d}Z\"\n        return f\"{result}.{millis:03d}{rest:03d}Z\"\n")]),
